@@ -92,6 +92,9 @@ Features == {
   F("alloc_post_mappings", 34, 39), F("reshape_consumer_type_required", 38, 39), F("reshape_mappings", 34, 39),
   F("usages_grouped_by_type", 38, 39), F("cache_headers_write_with_body", 15, 39),
   F("cache_headers_absent_on_write_with_body", 0, 14), F("ac_group_policy", 25, 39),
+  F("alloc_put_project_user_accepted", 8, 39), F("alloc_put_consumer_generation_accepted", 28, 39),
+  F("alloc_put_consumer_type_accepted", 38, 39), F("alloc_post_consumer_generation_accepted", 28, 39),
+  F("alloc_post_consumer_type_accepted", 38, 39), F("rp_put_parent_accepted", 14, 39),
   F("ac_resourceless_group", 36, 39),
   \* "refused" features: the probe is answered 400 wherever the route exists (1.10-)
   F("ac_orphan_required_refused", 10, 39), F("ac_orphan_forbidden_refused", 10, 39),
